@@ -38,6 +38,7 @@ package parquet
 //@   requires[C13] live(asBB(w.w).B)
 //@   modifies w, asBB(w.w), HA(asBB(w.w).B)
 //@   ensures err == nil && res0 == #p && w.n == old(w.n) + #p && w.w == old(w.w) && sameOrFresh(asBB(w.w).B)
+//@   ensures[C02] #asBB(w.w).B == old(#asBB(w.w).B) + #p
 //@   ensures[C09] err == nil ==> (wfault ==> old(wfault))
 
 //@ func writeLevels
@@ -45,6 +46,7 @@ package parquet
 //@   requires[C13] live(asBB(asWC(w).w).B)
 //@   modifies asWC(w), asBB(asWC(w).w), HA(asBB(asWC(w).w).B)
 //@   ensures err == nil && asWC(w).w == old(asWC(w).w) && sameOrFresh(asBB(asWC(w).w).B)
+//@   ensures[C02] asWC(w).n >= old(asWC(w).n) && #asBB(asWC(w).w).B - old(#asBB(asWC(w).w).B) == asWC(w).n - old(asWC(w).n)
 //@   ensures[C09] err == nil ==> (wfault ==> old(wfault))
 //@ loop writeLevels#1
 //@   modifies enc, enc.out, HA(enc.out.d), HA(enc.valBuf)
@@ -57,31 +59,56 @@ package parquet
 //@   modifies buf, HA(buf.B)
 //@   ensures sameOrFresh(buf.B)
 //@   ensures[C09] res3 == nil ==> (wfault ==> old(wfault))
+//@   ensures[C02] res0 == #vals && (res3 == nil ==> res1 == #res2) && (res3 == nil && codec == 0 ==> res2 == vals)
+
+// C02: what the footer and the page headers say agrees with the bytes written.
+// The running totals of a column chunk (absent chunk: 0) ...
+//@ pred i32(a) := 0 <= a && a <= 2147483647
+//@ pred colKey(pth) := joinS(HA(pth), off(pth), #pth, ".")
+//@ pred lastCols(m) := m.rowGroups[#m.rowGroups - 1].columns
+//@ pred cComp(cols, k) := ite(mapHas(cols, k), mapGet(cols, k).MetaData.TotalCompressedSize, 0)
+//@ pred cUncomp(cols, k) := ite(mapHas(cols, k), mapGet(cols, k).MetaData.TotalUncompressedSize, 0)
+//@ pred cNV(cols, k) := ite(mapHas(cols, k), mapGet(cols, k).MetaData.NumValues, 0)
+// ... grow by exactly the sizes and the count passed in; a new chunk records the codec and the path.
+//@ pred chunkGrew(cols, k, dl, cl, cnt) := mapHas(cols, k) && mapGet(cols, k).MetaData != nil && cComp(cols, k) == old(cComp(cols, k)) + cl && cUncomp(cols, k) == old(cUncomp(cols, k)) + dl && cNV(cols, k) == old(cNV(cols, k)) + cnt
 
 //@ func (*RowGroup).updateColumnChunk
 //@   requires r != nil && r.columns != nil
 //@   modifies mapOf(r.columns), heap("sch.ColumnMetaData")
+//@   ensures[C02] err == nil ==> chunkGrew(r.columns, colKey(pth), dataLen, compressedLen, count)
+//@   ensures[C02] err == nil && !old(mapHas(r.columns, colKey(pth))) ==> mapGet(r.columns, colKey(pth)).MetaData.Codec == comp && mapGet(r.columns, colKey(pth)).MetaData.PathInSchema == pth
+//@   ensures[C02] err == nil && old(mapHas(r.columns, colKey(pth))) ==> mapGet(r.columns, colKey(pth)).MetaData.Codec == old(mapGet(r.columns, colKey(pth)).MetaData.Codec)
 
 //@ func (*Metadata).updateRowGroup
 //@   requires metaOK(m)
 //@   ensures metaOK(m) && m.rowGroups == old(m.rowGroups)
 //@   ensures[C06] #m.rowGroups >= 1 ==> err == nil ==> pageWritten(m)
+//@   ensures[C02] err == nil ==> #m.rowGroups >= 1 && lastCols(m) == old(lastCols(m)) && chunkGrew(lastCols(m), colKey(pth), dataLen + headerLen, compressedLen + headerLen, count)
 //@   modifies HA(m.rowGroups), heap("sch.ColumnMetaData"), heap("map[string]sch.ColumnChunk")
 
 //@ func (*Metadata).WritePageHeader
 //@   requires metaOK(m) && external(w)
 //@   ensures metaOK(m) && m.rowGroups == old(m.rowGroups)
 //@   ensures[C06] #m.rowGroups >= 1 && err == nil ==> pageWritten(m)
-//@   modifies m, HA(m.rowGroups), heap("sch.ColumnMetaData"), heap("map[string]sch.ColumnChunk"), wfault, snkPos
+//@   modifies m, HA(m.rowGroups), heap("sch.ColumnMetaData"), heap("map[string]sch.ColumnChunk"), wfault, snk, ser
 //@   ensures[C09] err == nil ==> (wfault ==> old(wfault))
+// the header that reaches the sink states the sizes and the count it was given; the chunk grows by header + page
+//@   ensures[C02] err == nil ==> snkPos == old(snkPos) + hdrLen && snkKept(old(snkPos)) && hdrLen >= 0
+//@   ensures[C02] err == nil && i32(dataLen) && i32(compressedLen) && i32(count) ==> hdrComp == compressedLen && hdrUncomp == dataLen && hdrNV == count
+//@   ensures[C02] err == nil ==> #m.rowGroups >= 1 && lastCols(m) == old(lastCols(m)) && chunkGrew(lastCols(m), colKey(pth), dataLen + hdrLen, compressedLen + hdrLen, count)
 
 //@ func (*RequiredField).DoWrite
 //@   requires f != nil && metaOK(meta) && external(w)
 //@   requires[C13] live(vals)
 //@   ensures metaOK(meta) && meta.rowGroups == old(meta.rowGroups)
 //@   ensures[C06] #meta.rowGroups >= 1 && err == nil ==> pageWritten(meta)
-//@   modifies meta, HA(meta.rowGroups), heap("sch.ColumnMetaData"), heap("map[string]sch.ColumnChunk"), wfault, snkPos, relArr
+//@   modifies meta, HA(meta.rowGroups), heap("sch.ColumnMetaData"), heap("map[string]sch.ColumnChunk"), wfault, snk, ser, relArr
 //@   ensures[C09] err == nil ==> (wfault ==> old(wfault))
+// one page: header then payload; sizes in the header and the chunk totals are those of the bytes written
+//@   ensures[C02] err == nil ==> snkPos >= old(snkPos) + hdrLen && snkKept(old(snkPos)) && #meta.rowGroups >= 1 && lastCols(meta) == old(lastCols(meta))
+//@   ensures[C02] err == nil ==> chunkGrew(lastCols(meta), colKey(f.pth), #vals + hdrLen, snkPos - old(snkPos), count)
+//@   ensures[C02] err == nil && i32(#vals) && i32(count) && i32(snkPos - old(snkPos) - hdrLen) ==> hdrComp == snkPos - old(snkPos) - hdrLen && hdrUncomp == #vals && hdrNV == count
+//@   ensures[C02] err == nil && f.compression == 0 ==> snkPos == old(snkPos) + hdrLen + #vals
 
 //@ func (*OptionalField).DoWrite
 //@   requires f != nil && metaOK(meta) && external(w)
@@ -89,8 +116,14 @@ package parquet
 //@   ensures metaOK(meta) && meta.rowGroups == old(meta.rowGroups)
 //@   ensures[C06] #meta.rowGroups >= 1 && err == nil ==> pageWritten(meta)
 //@   free-requires 1 <= f.MaxLevels.Def && f.MaxLevels.Def <= 15 && f.MaxLevels.Rep <= 15 && (f.repeated ==> 1 <= f.MaxLevels.Rep)
-//@   modifies meta, HA(meta.rowGroups), heap("sch.ColumnMetaData"), heap("map[string]sch.ColumnChunk"), wfault, snkPos, relArr
+//@   modifies meta, HA(meta.rowGroups), heap("sch.ColumnMetaData"), heap("map[string]sch.ColumnChunk"), wfault, snk, ser, relArr
 //@   ensures[C09] err == nil ==> (wfault ==> old(wfault))
+// one page: header then payload; the value count is the number of definition levels
+//@   requires[C02] count == #f.Defs
+//@   ensures[C02] err == nil ==> snkPos >= old(snkPos) + hdrLen && snkKept(old(snkPos)) && #meta.rowGroups >= 1 && lastCols(meta) == old(lastCols(meta))
+//@   ensures[C02] err == nil ==> cComp(lastCols(meta), colKey(f.pth)) == old(cComp(lastCols(meta), colKey(f.pth))) + snkPos - old(snkPos) && cNV(lastCols(meta), colKey(f.pth)) == old(cNV(lastCols(meta), colKey(f.pth))) + #f.Defs
+//@   ensures[C02] err == nil ==> cUncomp(lastCols(meta), colKey(f.pth)) - old(cUncomp(lastCols(meta), colKey(f.pth))) - hdrLen >= #vals
+//@   ensures[C02] err == nil && i32(cUncomp(lastCols(meta), colKey(f.pth)) - old(cUncomp(lastCols(meta), colKey(f.pth))) - hdrLen) && i32(#f.Defs) && i32(snkPos - old(snkPos) - hdrLen) ==> hdrComp == snkPos - old(snkPos) - hdrLen && hdrUncomp == cUncomp(lastCols(meta), colKey(f.pth)) - old(cUncomp(lastCols(meta), colKey(f.pth))) - hdrLen && hdrNV == #f.Defs
 
 // ---- footer and schema
 
@@ -107,7 +140,7 @@ package parquet
 
 //@ func (*Metadata).Footer
 //@   requires metaOK(m) && external(w)
-//@   modifies heap("sch.ColumnMetaData"), heap("sch.SchemaElement"), wfault, snkPos, footRows, footGroups
+//@   modifies heap("sch.ColumnMetaData"), heap("sch.SchemaElement"), wfault, snk, ser
 //@   ensures[C09] err == nil ==> (wfault ==> old(wfault))
 //@   ensures[C06] err == nil ==> footRows == rowsSum(HA(m.rowGroups), off(m.rowGroups), #m.rowGroups) && footGroups == groupsKept(HA(m.rowGroups), off(m.rowGroups), #m.rowGroups)
 //@ loop (*Metadata).Footer#1
